@@ -33,6 +33,7 @@ type c12PoolObj struct {
 	st  *sr25519.SigningTranscript
 	sig *sr25519.Signature
 	exp bool
+	dec bool // sig is a decoded signature (not the reset object a failed decode leaves behind)
 }
 
 func c12CheckBatch(c h.C12BatchCase) h.Result {
@@ -52,6 +53,7 @@ func c12CheckBatch(c h.C12BatchCase) h.Result {
 		if !ok {
 			return r.Result()
 		}
+		decoded := sig != nil
 		if sig == nil {
 			// The altered signature does not decode: what a caller can still
 			// hand to Add is the object the failed decode left behind.
@@ -71,7 +73,7 @@ func c12CheckBatch(c h.C12BatchCase) h.Result {
 		if !exp {
 			anyBad = true
 		}
-		pool[i] = c12PoolObj{pk, st, sig, exp}
+		pool[i] = c12PoolObj{pk, st, sig, exp, decoded}
 	}
 
 	var v *sr25519.BatchVerifier
@@ -89,9 +91,30 @@ func c12CheckBatch(c h.C12BatchCase) h.Result {
 		}
 		return all
 	}
+	nadd := 0
 	add := func(i int) {
 		p := pool[i]
-		v.Add(p.pk, p.st, p.sig)
+		nadd++
+		// Every other Add hands over temporary key / signature OBJECTS that the
+		// caller re-uses for a different key / signature as soon as Add has
+		// returned: an entry is what was added, not what the objects hold later.
+		sb, serr := p.sig.MarshalBinary()
+		pb, perr := p.pk.MarshalBinary()
+		tsig, tpk := new(sr25519.Signature), new(sr25519.PublicKey)
+		_, pkInit := sr25519.C12PKState(p.pk)
+		_, sigS := sr25519.C12SigState(p.sig)
+		if nadd%2 == 0 && p.dec && pkInit && sigS != nil && serr == nil && perr == nil && tsig.UnmarshalBinary(sb) == nil && tpk.UnmarshalBinary(pb) == nil {
+			v.Add(tpk, p.st, tsig)
+			other := pool[(i+1)%len(pool)]
+			if ob, err := other.sig.MarshalBinary(); err == nil {
+				_ = tsig.UnmarshalBinary(ob)
+			}
+			if ob, err := other.pk.MarshalBinary(); err == nil {
+				_ = tpk.UnmarshalBinary(ob)
+			}
+		} else {
+			v.Add(p.pk, p.st, p.sig)
+		}
 		model = append(model, p.exp)
 		if !p.exp {
 			hadBad = true
